@@ -4,9 +4,10 @@ Spec: spec/AsyncConc.tla.  N tasks render on one environment; one TLA+ step =
 one scheduler step (run a task up to its next await).  Per-render state
 (counter, loop stack, autoescape stack, bound module, call stack, output) is
 local in the abstract layer; the shared state is what the engine really shares:
-the environment's template LRU cache and Template._module with the
-check-await-set window of _get_default_module_async.  TLC checks
-C37_OutputsAsIfAlone (+ cache invariants) on every interleaving, refutes two
+the environment's template LRU cache, Template._module with the
+check-await-set window of _get_default_module_async, and a mutable object all
+renders reach from which per-render copies are built (op Copy).  TLC checks
+C37_OutputsAsIfAlone (+ cache invariants) on every interleaving, refutes three
 mutant designs (self-test), and prints, for every complete schedule, the outputs
 it expects.
 
@@ -609,7 +610,7 @@ def run(ck):
     pool = ThreadPoolExecutor(4)
     fmain = pool.submit(core.run_tlc, PID, "AsyncConc", cfg(False, False, maxobj), workers=10, env=env, name="main",
                         timeout=3000, heap="6g")
-    # detection self-tests: two wrong designs of the module cache must be refuted by TLC
+    # detection self-tests: wrong designs (two of the module cache, aliasing copies) must be refuted by TLC
     core_n = len(core_scenarios())
     (d / "sets_core.json").write_text(json.dumps([spec_view(sc) for sc in S[:core_n]]))
     envc = {"SET_FILE": str(d / "sets_core.json")}
@@ -708,7 +709,8 @@ def run(ck):
     ck.extra["excluded_shapes"] = [
         "mutable objects (cycler / namespace / joiner) created at the top level of an imported, cached module and "
         "mutated by importers: shared by the documented module cache, not by concurrency",
-        "user data shared between renders (same list / object passed to two tasks)",
+        "user data shared between renders that a template mutates in place (objects the runtime builds from shared "
+        "objects - namespace(gd), dict(gd), gl|list - are covered)",
         "threads (C29) - only asyncio-style interleaving at await points",
     ]
     ck.exhaustive = True
